@@ -107,6 +107,9 @@ def scenario(k: Kernel, plan, obs):
 
     pools.multiprocessing = MPShim()
     maps.multiprocessing = MPShim()
+    from sim.prims import install_threading_shims
+    import windpyutils.buffers as buffers_mod
+    install_threading_shims(k, [pools, maps, workers, buffers_mod])
     if plan["mode"] == "FunctorMap":
         pools.Queue = ctx.Queue
         pools.FunctorWorker._Popen = make_popen(k)
